@@ -17,6 +17,7 @@ import random
 import pickle
 import sqlite3
 import contextlib
+import inspect
 import itertools
 
 from vf.refs import secp256k1 as ec
@@ -61,7 +62,8 @@ ASSUMPTIONS = ['private key material = the 256-bit scalar in the encodings named
                'where an API has include_private / is_private / as_private only its default is scanned',
                'a signed Transaction object holds the private keys it was given and is not a public view: only its default dict/JSON/repr/info are scanned',
                'DB at rest: main sqlite file plus -journal/-wal/-shm after all sessions are closed; the log file is scanned for information only']
-EXHAUSTIVE = ['thorough: all call histories of length <= 3 over the Key op alphabet and over the HDKey op alphabet',
+EXHAUSTIVE = ['optional arguments of the public-view methods (from inspect.signature): every single value and every pair of values of the per-argument tables (thinned for the slow methods)',
+              'thorough: all call histories of length <= 3 over the Key op alphabet and over the HDKey op alphabet',
               'quick: all call histories of length <= 2 (BIP38 encrypt only at length <= 1)']
 
 K_WIF_CACHE = 'C16/key-public/cached-private-wif-survives'
@@ -567,6 +569,148 @@ def key_default_keyer(obj, form, val, taint):
     return None
 
 
+# ------------------------------------------------------------------ optional-argument sweep of public-view methods
+# Optional parameters are read from the live signatures (inspect.signature), so an argument added later is picked up; a
+# parameter name without an entry below cannot be exercised and makes the run INCONCLUSIVE instead of silently unscanned.
+PRIVACY_FLAGS = {'is_private': (None, False), 'include_private': (False,), 'as_private': (False,), 'private': (False,)}
+
+
+def _ver(network, wt, ms, private=False):
+    try:
+        return chain.hd_prefix(network, wt, ms, private)
+    except Exception:
+        return None
+
+
+def _hd_version_values(obj):
+    net = obj.network.name
+    vals = [None]
+    for wt, ms in (('legacy', False), ('segwit', False), ('p2sh-segwit', False), ('segwit', True), ('p2sh-segwit', True)):
+        v = _ver(net, wt, ms)
+        if v and v not in vals:
+            vals.append(v)
+    vals.append(bytes.fromhex('0488b21e'))
+    vals.append('04b24746')          # SLIP-132 zpub as hex string
+    vals.append('049d7cb2')          # ypub
+    return [v for i, v in enumerate(vals) if v not in vals[:i]]
+
+
+ARG_VALUES = {
+    # (method name or None, parameter name) -> values or callable(obj) -> values
+    ('wif', 'prefix'): _hd_version_values,
+    ('wif_public', 'prefix'): _hd_version_values,
+    ('address', 'prefix'): lambda o: [None, b'\x00', '05', o.network.prefix_address],
+    ('address_uncompressed', 'prefix'): lambda o: [None, b'\x00', '05'],
+    (None, 'witness_type'): [None, 'legacy', 'p2sh-segwit', 'segwit'],
+    (None, 'multisig'): [None, False, True],
+    (None, 'child_index'): [None, 7],
+    (None, 'compressed'): [None, True, False],
+    (None, 'script_type'): [None, 'p2pkh', 'p2sh', 'p2wpkh', 'p2wsh'],
+    (None, 'encoding'): [None, 'base58', 'bech32'],
+    (None, 'account_id'): lambda o: [None, 0, 1] if hasattr(o, 'wallet_id') else [0, 1],     # HDKey.public_master needs a number
+    (None, 'purpose'): [None, 44, 49, 84],
+    (None, 'network'): lambda o: [None, getattr(o.network, 'name', None)],
+    (None, 'index'): [0, 1, 5],
+    (None, 'name'): [None, 'c16 name'],
+    (None, 'detail'): [0, 1, 2, 3, 4, 5],
+    (None, 'as_string'): [False, True],
+    (None, 'as_dict'): [True],
+    # Wallet.keys filters (is_private is a row filter there, handled in WALLET_KEYS_FILTERS)
+    (None, 'key_id'): [None],
+    (None, 'change'): [None, 0, 1],
+    (None, 'depth'): [None, 0, 3, 5],
+    (None, 'used'): [None, False],
+    (None, 'has_balance'): [None, False],
+    (None, 'is_active'): [None, False],
+}
+EXPENSIVE = {'public_master': 14, 'public_master_multisig': 10, 'info': 8, 'keys': 40}
+
+
+def optional_arg_table(col, obj, mname, fn, overrides=None):
+    """-> {parameter: values} for every optional parameter of the live signature."""
+    table = {}
+    for prm in inspect.signature(fn).parameters.values():
+        if prm.default is inspect.Parameter.empty or prm.kind not in (prm.POSITIONAL_OR_KEYWORD, prm.KEYWORD_ONLY):
+            continue
+        if overrides and prm.name in overrides:
+            vals = overrides[prm.name]
+        elif prm.name in PRIVACY_FLAGS:
+            vals = PRIVACY_FLAGS[prm.name]
+        else:
+            vals = ARG_VALUES.get((mname, prm.name), ARG_VALUES.get((None, prm.name)))
+            if callable(vals):
+                vals = vals(obj)
+        if vals is None:
+            col.note_inconclusive('optional argument %s of %s.%s has no value table in C16: it was not exercised'
+                                  % (prm.name, type(obj).__name__, mname))
+            continue
+        table[prm.name] = list(vals)
+    return table
+
+
+def arg_combinations(table, cap, tag):
+    """{} + every single argument value + every pair of argument values (deterministically thinned to `cap`)."""
+    names = sorted(table)
+    combos = [{}]
+    for n in names:
+        combos += [{n: v} for v in table[n]]
+    pairs = []
+    for a, b in itertools.combinations(names, 2):
+        pairs += [{a: va, b: vb} for va in table[a] for vb in table[b]]
+    if len(combos) + len(pairs) > cap:
+        random.Random('C16-args-%s' % tag).shuffle(pairs)
+        pairs = pairs[:max(0, cap - len(combos))]
+    return combos + pairs
+
+
+def _kw_label(kw):
+    return ', '.join('%s=%s' % (k, (v.hex() if isinstance(v, bytes) else repr(v))) for k, v in sorted(kw.items()))
+
+
+def sweep_public_methods(col, taint, case, obj, oname, methods, fresh=None, overrides=None, fixed=None):
+    """Call every listed public-view method of obj with its optional arguments varied (privacy switches only at their
+    public values) and scan what comes back.  `fresh()` gives a pristine copy per call for methods that change the object."""
+    n_viol = 0
+    for mname in methods:
+        fn0 = getattr(obj, mname, None)
+        if fn0 is None:
+            continue
+        table = optional_arg_table(col, obj, mname, fn0, (overrides or {}).get(mname))
+        fix = (fixed or {}).get(mname, {})        # arguments that select the public form of the method (e.g. keys(as_dict=True))
+        for n in fix:
+            table.pop(n, None)
+        combos = [dict(c, **fix) for c in arg_combinations(table, EXPENSIVE.get(mname, 90), '%s.%s' % (type(obj).__name__, mname))]
+        parts = []
+        for kw in combos:
+            target = fresh() if fresh else obj
+            try:
+                if mname == 'info':
+                    val = capture(getattr(target, mname), **kw)
+                else:
+                    val = getattr(target, mname)(**kw)
+                col.probe('optarg_call')
+            except Exception as e:
+                refused(col, 'optarg_call_refused', '%s.%s(%s)' % (type(obj).__name__, mname, ', '.join(sorted(kw))), e)
+                continue
+            parts.append(('%s(%s)' % (mname, _kw_label(kw)), val))
+        if not parts:
+            continue
+        col.probe('optarg_scan')
+        col.probe('optarg_scan/%s.%s' % (type(obj).__name__, mname))
+        res, _ = scan_parts(taint, parts)
+        for where, hits in res.items():
+            if hits:
+                n_viol += 1
+                if n_viol <= 6:
+                    report(col, None, '%s.%s' % (oname, where), case, oname, where, hits)
+    return n_viol
+
+
+KEY_VIEW_METHODS = ('public', 'as_dict', 'as_json', 'address', 'address_uncompressed', 'as_hex', 'as_bytes')
+HD_VIEW_METHODS = ('wif', 'wif_public', 'public', 'public_master', 'public_master_multisig', 'child_public', 'as_dict', 'as_json',
+                   'address', 'address_uncompressed', 'as_hex', 'as_bytes')
+
+
 # ------------------------------------------------------------------ key cases
 KEY_NETWORKS = ['bitcoin', 'testnet', 'litecoin', 'bitcoinlib_test', 'dogecoin', 'regtest', 'litecoin_testnet']
 TXID = bytes.fromhex('9f3c1e5a7b2d4c6e8f0a1b3c5d7e9f00112233445566778899aabbccddeeff10')
@@ -630,10 +774,11 @@ def _hd_rel_paths(network):
     coin = chain.NETWORKS[network]['bip44_cointype']
     paths = {(), (0,), (H,), (H, 1)}
     for purpose in (44, 49, 84, 86):
-        paths |= {(purpose + H,), (purpose + H, coin + H), (purpose + H, coin + H, H)}
+        paths |= {(purpose + H,), (purpose + H, coin + H), (purpose + H, coin + H, H), (purpose + H, coin + H, H + 1)}
     paths |= {(45 + H,)}
     for st in (1, 2):
-        paths |= {(48 + H,), (48 + H, coin + H), (48 + H, coin + H, H), (48 + H, coin + H, H, st + H)}
+        paths |= {(48 + H,), (48 + H, coin + H), (48 + H, coin + H, H), (48 + H, coin + H, H, st + H),
+                  (48 + H, coin + H, H + 1), (48 + H, coin + H, H + 1, st + H)}
     return sorted(paths)
 
 
@@ -773,6 +918,16 @@ def run_key_case(case, col):
     # default forms of the private object itself, after the history
     col.case('%s/default-forms/hist%d' % (fmt, len(hist)), nontrivial=ident + ('defaults',), sample=dict(case, view='defaults'))
     check_default_forms(col, taint, case, k, 'private %s' % case['cls'], keyer=key_default_keyer)
+    if case.get('sweep'):
+        col.case('%s/optional-args/hist%d' % (fmt, len(hist)), nontrivial=ident + ('optargs',), sample=dict(case, view='optional-argument sweep'))
+        methods = HD_VIEW_METHODS if case['cls'] == 'HDKey' else KEY_VIEW_METHODS
+        sweep_public_methods(col, taint, case, k, 'private %s' % case['cls'], methods, fresh=lambda: copy.deepcopy(k))
+        try:
+            pv = k.public()
+            sweep_public_methods(col, taint, case, pv, '%s.public()' % case['cls'], [m for m in methods if not m.startswith('public_master')],
+                                 fresh=lambda: copy.deepcopy(pv))
+        except Exception as e:
+            refused(col, 'view_refused', '%s.public() for sweep' % case['cls'], e)
     for t in ctx.get('txs', [])[:2]:
         col.probe('tx_default_forms')
         check_default_forms(col, taint, case, t, 'signed Transaction')
@@ -1082,6 +1237,9 @@ def scan_tx_forms(col, taint, case, ctx):
                     report(col, None, 'default %s of %s' % (form, oname), case, oname, form, fh)
 
 
+WALLET_VIEW_METHODS = ('wif', 'info', 'keys', 'as_dict', 'as_json', 'public_master')
+
+
 def scan_wallet_exports(col, taint, case, ww, label):
     """Default / public exports of one Wallet object (the wallet itself or one of its cosigner wallets)."""
     check_default_forms(col, taint, case, ww, label)
@@ -1231,6 +1389,16 @@ def run_wallet_case(case, col):
                 for ww, wl in [(wr, 'reopened Wallet')] + [(cw, 'reopened cosigner Wallet') for cw in (wr.cosigner or [])]:
                     scan_wallet_exports(col, taint, case, ww, wl)
                     scan_public_master(col, taint, case, ww, wl, cls, ident)
+                # optional arguments of the export methods (account_id, detail, key filters, witness_type, network ...)
+                try:
+                    wr.public_master(account_id=1)       # lets the account-1 keys exist before the taint set is rebuilt
+                except Exception:
+                    pass
+                taint2, _ = wallet_taint(col, db_path, seeds, singles)
+                col.case(cls + '/optional-args', nontrivial=ident + ('optargs',), sample=dict(case, view='optional-argument sweep'))
+                for ww, wl in [(wr, 'reopened Wallet')] + [(cw, 'reopened cosigner Wallet') for cw in (wr.cosigner or [])]:
+                    sweep_public_methods(col, taint2, case, ww, wl, WALLET_VIEW_METHODS if ww is wr else ('wif', 'public_master'),
+                                         overrides={'keys': {'is_private': [None, True, False]}}, fixed={'keys': {'as_dict': True}})
             finally:
                 _close_wallet(wr)
                 del wr
@@ -1575,7 +1743,9 @@ def run_shard(spec, col):
               'as_json_scan', 'info_scan', 'history_op', 'wallet_history_op', 'wallet_export_scan', 'wallet_wif_export_scan',
               'reopened_wallet_scan', 'dbkey_repr_scan',
               'walletkey_default_scan', 'tx_default_forms', 'dbfile_scan_encrypted', 'dbfile_scan_control',
-              'dbfile_control_found_raw', 'dbfile_control_found_text', 'atrest_private_rows') + tuple('dbfile_scan_encrypted/' + m for m in ENC_MODES):
+              'dbfile_control_found_raw', 'dbfile_control_found_text', 'atrest_private_rows') + tuple('dbfile_scan_encrypted/' + m for m in ENC_MODES) + (
+            'optarg_scan', 'optarg_scan/HDKey.wif', 'optarg_scan/HDKey.wif_public', 'optarg_scan/HDKey.public_master', 'optarg_scan/Key.address',
+            'optarg_scan/Wallet.wif', 'optarg_scan/Wallet.public_master', 'optarg_scan/Wallet.keys', 'optarg_scan/Wallet.info'):
         col.require(p)
     if spec.get('config_ini'):
         write_config_ini(os.environ['BCL_DATA_DIR'])      # before the first import of bitcoinlib
@@ -1597,13 +1767,14 @@ def run_shard(spec, col):
                 if idx % ns != sh:
                     continue
                 base = pool[cls][(idx // ns) % len(pool[cls])]
-                run_key_case(dict(base, history=h, more_views=(len(h) <= 1)), col)
+                run_key_case(dict(base, history=h, more_views=(len(h) <= 1), sweep=(len(h) <= 1)), col)
         for _ in range(spec['n_random']):
             case = gen_key_case(rnd)
             names = HD_OP_NAMES if case['cls'] == 'HDKey' else KEY_OP_NAMES
             L = rnd.randint(0, 6)
             case['history'] = [rnd.choice([n for n in names if n != 'encrypt' or rnd.random() < 0.15]) for _ in range(L)]
             case['more_views'] = rnd.random() < 0.3
+            case['sweep'] = rnd.random() < 0.25
             run_key_case(case, col)
     elif part == 'wallets':
         for j in range(spec['n_wallets']):
